@@ -1714,3 +1714,78 @@ func lineCountClosedForm(fn *ssa.Function, text ssa.Value) (bool, string) {
 	}
 	return true, "#LF + #CR - #CRLF over the whole text: LF, CR and CRLF count as one line ending each"
 }
+
+// ---------------------------------------------------------------------------------------------
+// BUF-FORWARD: the parser's buffer only moves forward within its allocation, or to a fresh one.
+
+func ruleBufForward(c *Ctx) {
+	c.Rule("BUF-FORWARD", "Every RootBlock.Source the streaming parser has handed out is a window into the parser's buffer, so memory in front of the current window still belongs to earlier blocks. Every value stored into BlockParser.buf (outside the constructors) is therefore a re-slice of the current buffer, a fresh allocation made in that function, or padNulls applied to one of these (it returns its argument or a fresh slice) — never a slice of another field or of a remembered allocation: sliding unparsed data back to the front of an old allocation, or rewinding an empty window to its start, lets later reads overwrite the Source of blocks already returned.")
+	p := c.P
+	pad := p.Func("padNulls")
+	n := 0
+	for _, fn := range p.Funcs {
+		if fn.Pkg != p.CMs {
+			continue
+		}
+		eachInstr(fn, func(in ssa.Instruction) {
+			st, ok := in.(*ssa.Store)
+			if !ok {
+				return
+			}
+			fa, ok := isFieldAddr(st.Addr, "BlockParser", "buf")
+			if !ok {
+				return
+			}
+			if _, isAlloc := fa.X.(*ssa.Alloc); isAlloc {
+				return // constructor literal
+			}
+			n++
+			key := fmt.Sprintf("%s:buf-store#%d", shortFuncName(fn), n)
+			seen := map[ssa.Value]bool{}
+			var okv func(v ssa.Value, d int) (bool, string)
+			okv = func(v ssa.Value, d int) (bool, string) {
+				if seen[v] || d > 8 {
+					return true, ""
+				}
+				seen[v] = true
+				switch x := v.(type) {
+				case *ssa.Slice:
+					return okv(x.X, d+1)
+				case *ssa.MakeSlice:
+					return true, ""
+				case *ssa.Phi:
+					for _, e := range x.Edges {
+						if ok, why := okv(e, d+1); !ok {
+							return false, why
+						}
+					}
+					return true, ""
+				case *ssa.UnOp:
+					if fa2, ok := isLoadOfField(x, "BlockParser", "buf"); ok && fa2.X == fa.X {
+						return true, ""
+					}
+					return false, "a load of " + describeValue(x)
+				case *ssa.Call:
+					if x.Call.StaticCallee() == pad && pad != nil {
+						return okv(x.Call.Args[0], d+1)
+					}
+					if _, isApp := isBuiltinCall(x, "append"); isApp {
+						// append lands in its first argument's array or in a fresh one
+						return okv(x.Call.Args[0], d+1)
+					}
+					return false, "the result of " + calleeName(&x.Call)
+				case *ssa.Const:
+					if x.IsNil() {
+						return true, ""
+					}
+				}
+				return false, describeValue(v)
+			}
+			good, why := okv(st.Val, 0)
+			c.Check(good, "BUF-FORWARD", key, st.Pos(), "the buffer is replaced by something that is neither a re-slice of itself nor a fresh allocation: "+why)
+		})
+	}
+	if n < 1 {
+		c.Undecided("BUF-FORWARD", "instance-count", token.NoPos, "no store to BlockParser.buf found")
+	}
+}
